@@ -622,10 +622,12 @@ class ArgumentParser(ParserDeprecations, ActionsContainer, ArgumentLinking, argp
         """
         try:
             fpath = Path(cfg_path, mode=get_config_read_mode())
+            cfg_str = fpath.get_content()
         except TypeError as ex:
             self.error(str(ex), ex)
+        except (ValueError, OSError) as ex:
+            self.error(f"Unable to read config file {cfg_path!r}: {ex}", ex)
         with change_to_path_dir(fpath):
-            cfg_str = fpath.get_content()
             parsed_cfg = self.parse_string(
                 cfg_str,
                 os.path.basename(cfg_path),
